@@ -50,7 +50,10 @@ def gen_case(r: random.Random):
     scheme = r.choice(["http", "https"])
     c = {
         "kind": kind, "scheme": scheme,
-        "host": r.choice(["o.test", "other-origin.test", "10.1.2.3"]),
+        "host": r.choice(["o.test", "other-origin.test", "10.1.2.3", "o.test", "::1", "2001:db8::5"]),
+        # per-request extensions that concern the origin hop only
+        "sni": r.choice([None, None, "front.cdn.test"]),
+        "target_ext": r.choice([None, None, None, "/ext/target?y=2"]),
         "port": r.choice([None, None, 8081]),
         "creds": r.random() < 0.5,
         "legacy": r.random() < 0.3,
@@ -116,13 +119,22 @@ async def run_one(flavor, c, cnt, v):
         pcfg = {"url": f"{kind}://socks.test:1080", "auth": auth}
     pool = mk_pool(flavor, net, proxy=pcfg, legacy_proxy=c["legacy"])
     api = API(flavor, pool, net)
-    hostport = c["host"] if c["port"] is None else f"{c['host']}:{port}"
+    uhost = f"[{c['host']}]" if ":" in c["host"] else c["host"]   # IPv6 literals are bracketed in URLs and authorities
+    hostport = uhost if c["port"] is None else f"{uhost}:{port}"
     url = f"{c['scheme']}://{hostport}/path?x=1"
+    ext = {}
+    if c.get("sni"):
+        ext["sni_hostname"] = c["sni"]
+    forward = kind in ("http", "https") and not tls
+    if c.get("target_ext") and not forward:
+        # (what an explicit target means for a *forwarded* request line is not settled by the property: not generated)
+        ext["target"] = c["target_ext"].encode()
     body_parts = [BODY + b"-a" * 50, BODY + b"-b" * 20]
     content = None if c["body"] is None else (b"".join(body_parts) if c["body"] == "bytes" else api.body(body_parts))
     CALL.set("r0")
     out = await guarded(flavor, lambda: api.request("POST" if c["body"] else "GET", url,
-                                                    headers=[(b"X-Token", b"r0")] + req_headers, content=content))
+                                                    headers=[(b"X-Token", b"r0")] + req_headers, content=content,
+                                                    extensions=ext))
     ctx = {"case": c, "flavor": flavor, "outcome": repr(out)}
     cnt["cases"] += 1
     expect_ok = True
@@ -134,7 +146,7 @@ async def run_one(flavor, c, cnt, v):
                 v("no-connect-sent", "https origin through an HTTP proxy without CONNECT", ctx)
             else:
                 rec = px.connects[0]
-                want_target = f"{c['host']}:{port}".encode()
+                want_target = f"{uhost}:{port}".encode()
                 if rec["target"] != want_target:
                     v("connect-target-wrong", f"CONNECT {rec['target']!r}, expected {want_target!r}", ctx)
                 hs = rec["headers"]
@@ -184,7 +196,7 @@ async def run_one(flavor, c, cnt, v):
                 want_target = f"http://{hostport}/path?x=1".encode()
                 if req.target != want_target:
                     v("forward-target-not-absolute-url", f"{req.target!r} != {want_target!r}", ctx)
-                dflt_host = c["host"].encode() if c["port"] is None else hostport.encode()
+                dflt_host = uhost.encode() if c["port"] is None else hostport.encode()
                 caller = [(b"Host", dflt_host), (b"X-Token", b"r0")] + req_headers
                 if c["body"] == "bytes":
                     caller.append((b"Content-Length", b"%d" % len(b"".join(body_parts))))
@@ -258,6 +270,13 @@ async def run_one(flavor, c, cnt, v):
             v("origin-request-count", f"{len(origin.requests)} requests reached the origin", ctx)
         elif c["body"] and bytes(origin.requests[0].body) != b"".join(body_parts):
             v("origin-body-wrong", f"{len(origin.requests[0].body)} bytes", ctx)
+        elif "target" in ext and origin.requests[0].target != ext["target"]:
+            v("origin-target-wrong", f"{origin.requests[0].target!r} != {ext['target']!r}", ctx)
+        if tls and origin.requests:
+            want_sni = c.get("sni") or c["host"]
+            info = origin.requests[0].tls_info or {}
+            if info.get("sni") != want_sni:
+                v("origin-sni-wrong", f"TLS to the origin named {info.get('sni')!r}, expected {want_sni!r}", ctx)
     await guarded(flavor, api.close_pool)
     reply = c["reply"] if not isinstance(c["reply"], (list, tuple)) else ":".join(map(str, c["reply"]))
     return f"{kind}|{c['scheme']}|creds{int(c['creds'])}|coll{int(c['collide'])}|{reply}|legacy{int(c['legacy'])}|{flavor}"
